@@ -1,26 +1,40 @@
 """C10 — a name denotes one binding, and reading it sees the value last given to it.
 
 Engine B (breadth-first search over short operation histories, every history rebuilt by replay in fresh
-namespaces).  A history is a sequence of top-level forms typed into a REPL-like session over two fresh
-namespaces (A, the starting one, and B):
+namespaces; driver: vlib.bfs.search without state merging).  A history is a sequence of top-level forms
+typed into a REPL-like session (one compiler context, *ns* thread-bound) over two fresh namespaces, A
+(the starting one) and B:
 
     (def n V) (def ^:dynamic n V) (def ^:redef n V) (def ^:private n V)      in the current namespace
     (in-ns 'other)   (require '[other :as o])   (refer 'other :only '[n])    (the real core functions)
     (alter-var-root #'n (fn [_] V))                                          on whatever bare n denotes
 
-with every V a fresh integer (so an observed value identifies the binding and the write it came from).
+with every V a fresh integer, so an observed value identifies the binding and the write it came from.
 The names of one history come from one *name group* (names that munge alike are in the same group).
-Every history is executed four times: {direct linking, use-var-indirection} x {inline-functions on, off}.
 
-After the LAST step of every history (every prefix is a history of its own, so this is "after every step")
-all spellings of all names of the group are read from the current namespace:
+Every history is executed under direct linking and under use-var-indirection (two separate sessions).
+Inside a session every read is compiled twice, with inline-functions on and off (two compiler contexts
+over the same namespaces); the operations and the function definitions contain no inlinable call, so they
+are compiled once per session.  After the LAST step of every history (every prefix is a history of its
+own, so this is "after every step") all spellings of all names of the group are read from the current
+namespace:
 
-    n   Cur/n   Other/n   o/n   @#'Cur/n   @#'Other/n   (let [n 7] n)   (let [n 7] Cur/n)   (let [m 7] n)
-    the same spellings inside a function compiled NOW, inside every function compiled after an EARLIER step
-    (called as a Python object), and through a compiled call `(rdK)` / `(Other/rdK)` of those functions,
-    which are defined `^:inline` (so with inline-functions on their body is spliced into the call site).
+    n   Cur/n   Other/n   o/n   @#'Cur/n   @#'Other/n          at top level
+    (let [n 7] [n Cur/n m])                                    a local shadows the Var of that name only
+    (binding [n 9] [n Cur/n @#'Cur/n ...])                     for every ^:dynamic Var; the functions below are also
+                                                               called under that thread binding
+    (fn [] [...all resolvable spellings...])                   compiled NOW and after every EARLIER step, called
+                                                               as an object
+    (defn ^:inline rdK [] [n o/n ...])                         defined after every step at which what its body
+                                                               denotes is new; called through a compiled call
+                                                               (rdK) / (Other/rdK), also under caller locals
+                                                               (let [n 7] (rdK)): with inline-functions on the body
+                                                               is spliced into the calling form
 
 The oracle is a reference dict (namespace, name) -> (last def value, current root, flags), see ASSUMPTIONS.
+
+Known defect (F-10a): def'ed names that munge alike share one Python module global.  The check carries a model
+of exactly that defect (Model.globs / explain()) and tags the failures it explains.
 """
 from __future__ import annotations
 
@@ -41,22 +55,28 @@ GROUPS = {
     "builtin": ("print", "print_"),
     "single": ("class", "v'", "plain"),
     "cross": ("a-b", "plain"),
+    "one": ("plain",),
 }
 FLAGS = ("plain", "dynamic", "redef", "private")
 CONFIGS = ((False, True), (False, False), (True, True), (True, False))  # (use-var-indirection, inline-functions)
 LOCAL = 7  # the value every shadowing local is bound to
+BOUND = 9  # the value of every thread binding
+MAX_LISTED_EXPLAINED = 400  # per worker: explained (known-defect) cases written out; all are counted
 
 BOUNDS = {
-    "quick": "every history of length <=3 over each name group {a-b,a_b} {x?,x__Q__} {print,print_} and length <=2 over "
-    "{class,v',plain} {a-b,plain}; alphabet per group of k names: 4k defs + k refers + k alter-var-roots + in-ns + require "
-    "(only enabled operations); x 4 compiler configurations; all spellings of all group names read after every history",
-    "thorough": "every history of length <=5 over {a-b,a_b}, <=4 over {x?,x__Q__} {print,print_} {a-b,plain} and <=3 over "
-    "{class,v',plain}; same alphabet, configurations and reads",
+    "quick": "every history of length <=3 over the name groups {a-b,a_b} and {plain}, and of length <=2 over {x?,x__Q__}, "
+    "{print,print_}, {class,v',plain}; alphabet of a group of k names: 4k defs (plain/dynamic/redef/private) + k "
+    "alter-var-roots + k refers + in-ns + require (enabled operations only); each history under direct linking and under "
+    "use-var-indirection, every read compiled with inline-functions on and off; all spellings of all group names read after "
+    "every history",
+    "thorough": "length <=4 over {a-b,a_b}; length <=5 over {plain} and over {a-b,a_b} with plain and ^:redef defs only; length <=4 over "
+    "{x?,x__Q__} and {print,print_} with the def flags reduced to plain/private from the third step on; length <=3 over "
+    "{class,v',plain} and {a-b,plain}; same configurations and reads",
 }
 RULE = (
     "engine B: breadth-first enumeration of operation histories (no merging: every history is its own state because the "
     "functions compiled after earlier steps are part of what is observed); a history is rebuilt by replaying its forms through "
-    "the real reader/compiler in two fresh namespaces, once per compiler configuration; symmetry reductions: a history does not "
+    "the real reader/compiler in two fresh namespaces, once per linking mode; symmetry reductions: a history does not "
     "start with in-ns (the two namespaces are interchangeable at the start) and never contains two in-ns in a row; an operation "
     "is enabled when it can have an effect (refer: the other namespace interns the name; alter-var-root: the bare name denotes "
     "a Var of the history; require: not yet required); names of different groups never occur in one history; a case is distinct "
@@ -68,7 +88,8 @@ ASSUMPTIONS = [
     "unless basilisp.core is referred under it (print, class), then it is the core function",
     "a read compiled while the Var was neither ^:dynamic nor ^:redef, with direct linking, may return either the value of the "
     "last def or the current root after alter-var-root (the property lets direct-linked code miss root mutations); every other "
-    "read must return the current root; every read must see every re-def",
+    "read must return the current root; every read must see every re-def; under a thread binding of a ^:dynamic Var every "
+    "read returns the bound value, except reads compiled as direct links while the Var was not yet dynamic",
     "the flags that count for a function compiled earlier are those the Var had when the function was compiled; a function "
     "compiled earlier keeps denoting the Var its symbol resolved to then",
     "where the reference language would reject a spelling but basilisp resolves it through the namespace's refers (Other/n or "
@@ -78,6 +99,10 @@ ASSUMPTIONS = [
     "error for unresolvable names (the analyzer raises AssertionError for a bare name whose munged form is a module global)",
     "an ^:inline function whose body names a Var that is private (now) may fail to compile when called from the other "
     "namespace with inlining on; a wrong VALUE is never accepted",
+    "the inline-functions option only changes how call forms are analyzed: operations and function definitions of a history "
+    "(which contain no call of an inlinable function) are compiled once per linking mode and shared by the reads of both "
+    "inlining modes; a second ^:inline function with the same body in the same namespace is not defined again",
+    "the four configurations must agree on every read of a history without alter-var-root (reads the oracle leaves open included)",
     "in-ns / require / refer / alter-var-root are the real core functions; the required namespace is created programmatically "
     "(Namespace.get_or_create; Namespace.require falls back to existing namespaces when no module file exists)",
 ]
@@ -243,7 +268,8 @@ _COUNTER = [0]
 
 
 class Session:
-    """Two fresh namespaces, one compiler context, *ns* thread-bound for the whole history (as the REPL does)."""
+    """Two fresh namespaces, two compiler contexts (inline-functions on / off) over them, *ns* thread-bound for the
+    whole history (as the REPL does)."""
 
     def __init__(self, uvi):
         from basilisp.lang import compiler, runtime, symbol as sym
@@ -361,8 +387,9 @@ class Run:
     def __init__(self, group, hist, uvi, res):
         self.group, self.hist, self.uvi, self.res = group, hist, uvi, res
         self.model = Model(GROUPS[group])
-        self.obs = {True: [], False: []}
+        self.obs = {True: {}, False: {}}
         self.fails = []  # (inline, kind, read, details)
+        self.isigs = set()
 
     # -- bookkeeping
 
@@ -376,7 +403,7 @@ class Run:
     def check_elem(self, inline, where, lab, t, mode, direct, val, reader_ns, linked):
         m = self.model
         o = classify(val, name_of(lab))
-        self.obs[inline].append((where, lab, o))
+        self.obs[inline][(where, lab)] = o
         self.res.outcomes.add((where.split("-")[0], lab.split(":")[0], o if not isinstance(o, int) else "int"))
         allowed = m.allowed(t, direct and mode == "sym")
         if o in allowed:
@@ -431,7 +458,11 @@ class Run:
         # the ^:inline reader: bare and alias spellings (the ones whose meaning depends on where they are resolved)
         imust = [e for e in must if e[0].split(":")[0] in ("bare", "alias")]
         rd.ielems = [(lab, t, mode, self.dc(t, mode)) for (lab, txt, t, mode) in imust]
-        if imust:
+        # (a second ^:inline function with the same body in the same namespace would expand to the same form;
+        #  what a function compiled at this step reads when it is merely called is covered by rd.fn)
+        sig = (m.cur, tuple((lab, t) for (lab, txt, t, mode) in imust))
+        if imust and sig not in self.isigs:
+            self.isigs.add(sig)
             r = try_eval(sess, "(defn ^:inline rd%d [] [%s])" % (i, " ".join(txt for (_, txt, _, _) in imust)))
             if r[0] != "ok":
                 for inline in (True, False):
@@ -459,7 +490,7 @@ class Run:
                     if r1[0] == "ok":
                         self.check_elem(inline, "top", lab, t, mode, self.dc(t, mode), r1[1], c, linked_now)
                     else:
-                        obs.append(("top", lab, "error"))
+                        obs[("top", lab)] = "error"
                         self.fail(inline, "read-raises", "top " + lab, observed=r1[1], denotes=_tname(t))
         # 2. spellings that must not, or need not, resolve: one form each
         for lab, txt, cls, t, mode in sp:
@@ -468,7 +499,7 @@ class Run:
             r1 = try_eval(sess, txt, inline)
             if r1[0] == "ok":
                 o = classify(r1[1], name_of(lab))
-                obs.append(("top", lab, o))
+                obs[("top", lab)] = o
                 self.res.outcomes.add(("top", lab.split(":")[0], cls + "->resolves"))
                 if cls == "maybe":
                     allowed = m.allowed(t, self.dc(t, mode))
@@ -483,11 +514,12 @@ class Run:
                 else:
                     self.fail(inline, "unbound-name-resolves", "top " + lab, observed=o)
             else:
-                obs.append(("top", lab, r1[0] if cls == "cex" else "error"))
+                obs[("top", lab)] = r1[0] if cls == "cex" else "error"
                 self.res.outcomes.add(("top", lab.split(":")[0], r1[0] + ":" + r1[1].split(":")[0][:40]))
                 if cls == "cex" and r1[0] != "cex":
                     self.fail(inline, "private-var-not-a-compile-error", "top " + lab, observed=r1[1])
-        # 3. locals shadow Vars (and only the Var of that very name)
+        # 3. locals shadow Vars (and only the Var of that very name); one form for all names
+        forms, exps = [], []
         for n in m.names:
             parts = [n]
             exp = [("let:" + n, "local", None)]
@@ -499,19 +531,71 @@ class Run:
                 if n2 != n and t2 is not None and not (t2[0] != c and "private" in m.vars[t2]["flags"]):
                     parts.append(n2)
                     exp.append(("let[%s]:%s" % (n, n2), t2, "sym"))
-            r1 = try_eval(sess, "(let [%s %d] [%s])" % (n, LOCAL, " ".join(parts)), inline)
-            if r1[0] != "ok" or len(r1[1]) != len(parts):
-                obs.append(("let", n, "error"))
+            forms.append("(let [%s %d] [%s])" % (n, LOCAL, " ".join(parts)))
+            exps.append(exp)
+        r = try_eval(sess, "[%s]" % " ".join(forms), inline)
+        results = list(r[1]) if r[0] == "ok" else [try_eval(sess, f, inline) for f in forms]
+        for n, exp, r1 in zip(m.names, exps, results):
+            if r[0] == "ok":
+                r1 = ("ok", r1)
+            if r1[0] != "ok" or len(r1[1]) != len(exp):
+                obs[("let", n)] = "error"
                 self.fail(inline, "read-raises", "let " + n, observed=r1[1] if r1[0] != "ok" else "wrong arity")
                 continue
             for (lab, tt, mode), val in zip(exp, r1[1]):
                 if tt == "local":
                     o = classify(val)
-                    obs.append(("let", lab, o))
+                    obs[("let", lab)] = o
                     if o != LOCAL:
                         self.fail(inline, "local-does-not-shadow", "let " + lab, expected=LOCAL, observed=o)
                 else:
                     self.check_elem(inline, "let", lab, tt, mode, self.dc(tt, mode), val, c, linked_now)
+        # 3b. a thread binding of a ^:dynamic Var is what every spelling reads (compiled now; functions compiled earlier
+        #     unless they were compiled as direct links, i.e. while the Var was not dynamic)
+        for tkey, v in sorted(m.vars.items()):
+            if "dynamic" not in v["flags"]:
+                continue
+            spell = [(lab, txt, mode) for (lab, txt, t, mode) in must if t == tkey]
+            bare = [txt for (lab, txt, mode) in spell if lab.startswith("bare:")]
+            if bare:
+                r1 = try_eval(sess, "(binding [%s %d] [%s])" % (bare[0], BOUND, " ".join(txt for (_, txt, _) in spell)), inline)
+                if r1[0] != "ok" or len(r1[1]) != len(spell):
+                    obs[("binding", _tname(tkey))] = "error"
+                    self.fail(inline, "read-raises", "binding " + _tname(tkey), observed=r1[1] if r1[0] != "ok" else "wrong arity")
+                else:
+                    for (lab, txt, mode), val in zip(spell, r1[1]):
+                        o = classify(val, name_of(lab))
+                        obs[("binding", lab)] = o
+                        if o != BOUND:
+                            self.fail(inline, "thread-binding-not-seen", "binding " + lab, expected=BOUND, observed=o, denotes=_tname(tkey))
+            var = sess.rt.Var.find(sess.sym.symbol(tkey[1], ns=nsn[tkey[0]]))
+            if var is None or not var.dynamic:
+                obs[("binding-setup", _tname(tkey))] = "error"
+                self.fail(inline, "read-wrong-binding", "Var.find " + _tname(tkey), expected="the ^:dynamic Var", observed=repr(var).replace(nsn[0], "A").replace(nsn[1], "B"))
+                continue
+            with sess.rt.bindings({var: BOUND}):
+                for rd in readers:
+                    if rd.fn is None or not any(t == tkey for (_, t, _, _) in rd.elems):
+                        continue
+                    where = "fn-under-binding%d" % (m.step - 1 - rd.k)
+                    try:
+                        vals = rd.fn()
+                    except Exception as e:  # noqa
+                        obs[(where, _tname(tkey))] = "error"
+                        self.fail(inline, "read-raises", where, observed=type(e).__name__ + ": " + _short(e))
+                        continue
+                    for (lab, t, mode, direct_then), val in zip(rd.elems, vals):
+                        if t != tkey:
+                            continue
+                        o = classify(val, name_of(lab))
+                        obs[(where, lab)] = o
+                        ok = o == BOUND or (direct_then and mode == "sym" and o in (v["val"], v["root"]))
+                        if not ok:
+                            d = {"expected": BOUND, "observed": o, "denotes": _tname(tkey)}
+                            ex = explain(m, tkey, o, direct_then and mode == "sym", rd.ns, rd.linked)
+                            if ex:
+                                d["explained_by"] = ex
+                            self.fail(inline, "thread-binding-not-seen", "%s %s" % (where, lab), **d)
         # 4. functions compiled now / earlier
         for rd in readers:
             age = m.step - 1 - rd.k
@@ -522,7 +606,7 @@ class Run:
                 except Exception as e:  # noqa
                     vals, err = None, type(e).__name__ + ": " + _short(e)
                 if err is not None or len(vals) != len(rd.elems):
-                    obs.append((where, "call", "error"))
+                    obs[(where, "call")] = "error"
                     self.fail(inline, "read-raises", where, observed=err or "wrong arity")
                 else:
                     for (lab, t, mode, direct_then), val in zip(rd.elems, vals):
@@ -533,7 +617,7 @@ class Run:
             other = rd.ns != c
             call = "(%s/rd%d)" % (nsn[rd.ns], rd.k) if other else "(rd%d)" % rd.k
             where = ("call-now" if age == 0 else "call-earlier%d" % age) + ("-from-other-ns" if other else "")
-            for shadow in (False, True):
+            for shadow in (False, True) if inline else (False,):
                 text = call
                 if shadow:
                     # a local of the CALLER named like a Var the function reads must not change what the function reads
@@ -543,12 +627,13 @@ class Run:
                     text = "(let [%s] %s)" % (" ".join("%s %d" % (n, LOCAL) for n in names), call)
                 wh = where + ("-under-local" if shadow else "")
                 r1 = try_eval(sess, text, inline)
-                may_fail = inline and other and any(t != _CORE and "private" in m.vars[t]["flags"] for (_, t, _, _) in rd.ielems)
+                # newly compiled code of this namespace would name a Var that is private to the other namespace
+                may_fail = inline and any(t != _CORE and t[0] != c and "private" in m.vars[t]["flags"] for (_, t, _, _) in rd.ielems)
                 if r1[0] != "ok" or len(r1[1]) != len(rd.ielems):
                     if may_fail and r1[0] == "cex":
-                        obs.extend((wh, lab, "?") for (lab, _, _, _) in rd.ielems)  # "?" = not compared
+                        obs.update(((wh, lab), "?") for (lab, _, _, _) in rd.ielems)  # "?" = not compared
                     else:
-                        obs.extend((wh, lab, "error") for (lab, _, _, _) in rd.ielems)
+                        obs.update(((wh, lab), "error") for (lab, _, _, _) in rd.ielems)
                         self.fail(inline, "read-raises", wh, observed=r1[1] if r1[0] != "ok" else "wrong arity", call=_generic(text, nsn))
                     continue
                 for (lab, t, mode, direct_then), val in zip(rd.ielems, r1[1]):
@@ -597,6 +682,13 @@ def check_history(group, hist, res):
             if len(agg[k][3]) < 8:
                 agg[k][3].append(read)
         for (inline, kind, ex), (read, d, n, reads) in agg.items():
+            if ex is not None:
+                # failures explained by a known defect must never crowd out other failures (Result keeps 2000 per worker)
+                seen = res.parts.setdefault("explained:" + ex, {"cases": 0, "listed": 0})
+                seen["cases"] += 1
+                if seen["listed"] >= MAX_LISTED_EXPLAINED:
+                    continue
+                seen["listed"] += 1
             res.fail(kind, _case(group, hist, (uvi, inline), read), reads_failing=n, reads=reads, **d)
     if not m.altered:
         base_cfg = (True, False)
@@ -607,14 +699,13 @@ def check_history(group, hist, res):
                 continue
             o = allobs[cfg]
             bad = failed.get(cfg, set()) | failed.get(base_cfg, set())
-            if len(o) != len(base):
-                if not bad:
-                    diffs.append((cfg, "number of reads", len(o), len(base)))
-                continue
-            for a, b in zip(o, base):
-                rd = "%s %s" % (a[0], a[1])
-                if a != b and "?" not in (a[2], b[2]) and rd not in bad and a[0] not in bad:
-                    diffs.append((cfg, rd, a[2], b[2]))
+            for key in o:
+                if key not in base or key[0] == "binding" or key[0].startswith("fn-under-binding"):
+                    continue  # a read made only when inlining is on / a read under a thread binding (not a def)
+                a, b = o[key], base[key]
+                rd = "%s %s" % key
+                if a != b and "?" not in (a, b) and rd not in bad and key[0] not in bad:
+                    diffs.append((cfg, rd, a, b))
         if diffs:
             cfg, rd, a, b = diffs[0]
             res.fail(
@@ -649,62 +740,63 @@ def explore(group, prefix, max_len, res, alphabet=None):
     return bfs.search(tuple(prefix), actions, step, max_len - len(prefix))
 
 
-def shard_fn(args):
-    group, prefix, max_len, alphabet = args
+def bucket_fn(tasks):
+    """One worker: a list of (group, root history, max length, alphabet restriction) searches."""
     res = Result()
     t0 = time.process_time()
-    st = explore(group, prefix, max_len, res, alphabet)
-    res.part("bfs", transitions=st.transitions, histories=st.states - 1, frontier_exhausted=st.frontier_exhausted)
+    for group, prefix, max_len, alphabet in tasks:
+        st = explore(group, prefix, max_len, res, alphabet)
+        res.part("bfs", transitions=st.transitions, histories=st.states - 1, frontier_exhausted=st.frontier_exhausted)
+        if not st.frontier_exhausted:
+            res.caps.append("search below %r cut: %s" % (prefix, st.aborted or st.cap))
     res.part("cpu", cpu_s=round(time.process_time() - t0, 2))
     return res.compact()
 
 
-def roots_shard(args):
-    """The histories no longer than the shard roots."""
-    group, plen = args
-    res = Result()
-    st = explore(group, (), plen, res)
-    res.part("bfs", transitions=st.transitions, histories=st.states - 1, frontier_exhausted=st.frontier_exhausted)
-    return res.compact()
-
-
-def _dispatch(args):
-    return roots_shard(args[1:]) if args[0] == "roots" else shard_fn(args[1:])
-
-
-def prefixes(group, plen):
+def prefixes(group, plen, alphabet=None):
     frontier = [()]
-    for _ in range(plen):
+    for d in range(plen):
         nxt = []
         for h in frontier:
-            for op in model_after(group, h).enabled(h[-1] if h else None):
+            ops = model_after(group, h).enabled(h[-1] if h else None)
+            if alphabet is not None and d >= alphabet[0]:
+                ops = [o for o in ops if o[0] != "def" or o[2] in alphabet[1]]
+            for op in ops:
                 nxt.append(h + (op,))
         frontier = nxt
     return frontier
 
 
-# (group, max length, (from depth, def flags kept from that depth on) or None)
+# (group, max length, None | (from step index, def flags kept from that step on))
 PLAN = {
-    "quick": [("dash", 3, None), ("qmark", 2, None), ("builtin", 2, None), ("single", 2, None), ("cross", 2, None)],
-    "thorough": [("dash", 4, None), ("qmark", 4, None), ("builtin", 4, None), ("cross", 3, None), ("single", 3, None)],
+    "quick": [("dash", 3, None), ("one", 3, None), ("qmark", 2, None), ("builtin", 2, None), ("single", 2, None)],
+    "thorough": [
+        ("dash", 4, None),
+        ("dash", 5, (0, ("plain", "redef"))),
+        ("one", 5, None),
+        ("qmark", 4, (2, ("plain", "private"))),
+        ("builtin", 4, (2, ("plain", "private"))),
+        ("cross", 3, None),
+        ("single", 3, None),
+    ],
 }
 
 
 def run(tier, seed):
     res = Result()
-    shards = []
+    tasks = []
     for group, L, alphabet in PLAN[tier]:
-        plen = min(L, 1 if L <= 3 else 2)
-        shards.append(("roots", group, plen))
-        if L > plen:
-            for p in prefixes(group, plen):
-                shards.append(("sub", group, p, L, alphabet))
-    if seed:
-        k = seed % len(shards)
-        shards = shards[k:] + shards[:k]
+        plen = L - 1 if L <= 3 else 2
+        tasks.append((group, (), plen, alphabet))  # the histories no longer than the roots below
+        for p in prefixes(group, plen, alphabet):
+            tasks.append((group, p, L, alphabet))
+    # a forked worker costs about a second before it does anything useful: few, equally mixed buckets
+    nb = max(1, min(len(tasks), 2 * env.ncores()))
+    k = seed % nb if seed else 0
+    buckets = [tasks[(i + k) % nb :: nb] for i in range(nb)]
     gc.collect()
     gc.freeze()
-    for r in env.parallel(_dispatch, shards):
+    for r in env.parallel(bucket_fn, buckets):
         res.merge(r)
     res.notes.append("configurations: " + ", ".join("use-var-indirection=%s/inline-functions=%s" % c for c in CONFIGS))
     cnt = Counter((f["kind"], f.get("explained_by", "-")) for f in res.failures)
